@@ -74,3 +74,52 @@ Print Assumptions c34_safety_cross_vote_refuted.
 Theorem c34_safety_empty_flag_refuted : ~ safety_statement hyp_but_E.
 Proof. exact safety_empty_flag_refuted_lemma. Qed.
 Print Assumptions c34_safety_empty_flag_refuted.
+
+(** * The local rules the property names (all reachable configurations, all peers) *)
+
+(** one commit per height (setProposalCommitted): a node's key signs at most one commitment *)
+Theorem c34_one_commit_per_height : forall P cfg a,
+  reachable P cfg -> (length (commitments (node_of cfg a)) <= 1)%nat.
+Proof. intros P cfg a H. exact (proj1 (proj2 (J_reachable P cfg H a))). Qed.
+Print Assumptions c34_one_commit_per_height.
+
+(** endorse once per flag (setProposalEndorsed): at most one non-empty and one empty endorsement *)
+Theorem c34_one_endorsement_per_flag : forall P cfg a e,
+  reachable P cfg -> (length (endorsements e (node_of cfg a)) <= 1)%nat.
+Proof.
+  intros P cfg a e H. destruct (J_reachable P cfg H a) as (_ & _ & _ & H1 & _ & H2).
+  destruct e; assumption.
+Qed.
+Print Assumptions c34_one_endorsement_per_flag.
+
+(** single seal per height (setBlockSealed / sealBlock): a seal never changes *)
+Theorem c34_single_seal_per_height : forall P cfg e cfg' a b,
+  step P cfg e = Some cfg' -> n_sealed (node_of cfg a) = Some b -> n_sealed (node_of cfg' a) = Some b.
+Proof. exact sealed_final_step. Qed.
+Print Assumptions c34_single_seal_per_height.
+
+(** addBlockEndorsementLocked: per endorser one non-empty entry per proposer, for every history *)
+Theorem c34_pool_one_endorsement_per_proposer : forall ops e l (q : N),
+  aget e (c_esigs (run_ops ops cand_empty)) = Some l ->
+  (length (filter (fun s => negb (es_empty s) && (es_proposer s =? q)%N) l) <= 1)%nat.
+Proof. exact pool_one_endorsement. Qed.
+Print Assumptions c34_pool_one_endorsement_per_proposer.
+
+(** ... and an empty endorsement is sticky: nothing is added for that endorser afterwards *)
+Theorem c34_empty_endorsement_sticky : forall e s es l,
+  aget e es = Some l -> existsb es_empty l = true -> add_endorsement e s false es = es.
+Proof. exact empty_endorsement_sticky. Qed.
+Print Assumptions c34_empty_endorsement_sticky.
+
+(** Non-vacuity: a clean round with N = 4 satisfies the hypotheses of the partial theorem, two
+    honest nodes seal, and the theorem yields their agreement. *)
+Example c34_nonvacuous :
+  reachable (P4 []) cfg_clean /\ hyp_allb (P4 []) cfg_clean = true /\
+  n_sealed (node_of cfg_clean 1) = Some X0 /\ n_sealed (node_of cfg_clean 2) = Some X0 /\
+  agreement (P4 []) cfg_clean.
+Proof.
+  destruct clean_round as (Hr & Hh & H1 & H2).
+  assert (R : reachable (P4 []) cfg_clean) by (eapply run_reachable; [apply reach_init|exact Hr]).
+  repeat split; try assumption.
+  apply c34_safety_partial; [apply wf_P4; cbn; auto|exact R|exact Hh].
+Qed.
